@@ -1895,7 +1895,189 @@ def grid_misc(tier):
     return out
 
 
-GRID_FAMILIES = {"exits": grid_exits, "genexits": grid_generator_exits, "bindings": grid_bindings, "operators": grid_operators,
+def grid_nested_exits(tier):
+    """exits that leave several constructs at once: nested iterator loops left by a labelled break/continue/return/throw
+    (every iterator left must be closed, inner first), two different exits through the same try/finally nest, a finally block
+    whose own conditional exit replaces the pending one, generators closed from outside while suspended inside for-of, and
+    loops carrying two labels."""
+    out = []
+    Gd = lambda: generator("G", params("t"), [try_(block(expr(yield_(num(1))), expr(yield_(num(2)))), 0, 0, block(_p(S("closed"), I("t"))))])
+    # A: nested for-of
+    for depth in (2, 3):
+        exits = [("break-%d" % k, lambda k=k: break_("L%d" % k)) for k in range(1, depth + 1)]
+        exits += [("continue-%d" % k, lambda k=k: continue_("L%d" % k)) for k in range(1, depth + 1)]
+        exits += [("break", lambda: break_()), ("return", lambda: return_(S("ret"))), ("throw", lambda: throw(S("thrown")))]
+        for en, mk in exits:
+            for fin in (False, True):
+                body = block(_p(S("in"), I("v%d" % depth)), mk())
+                if fin:
+                    body = block(try_(body, 0, 0, block(_p(S("fin")))))
+                st = body
+                for k in range(depth, 0, -1):
+                    st = labeled("L%d" % k, forof("const", "v%d" % k, call(I("G"), S("g%d" % k)), block(st, _p(S("after"), num(k)))))
+                    st = block(st) if k > 1 else st
+                f = function("f", [], [st, _p(S("end")), return_(S("fell"))])
+                out.append(("nested/forof%d/%s/%s" % (depth, en, "fin" if fin else "plain"),
+                            program([Gd(), f, _guard([_p(S("result"), call(I("f")))], "caught")])))
+    # B: two different exits through the same try/finally nest, chosen by the loop index
+    kinds = {"break": lambda: break_(), "continue": lambda: continue_(), "return": lambda: return_(S("ret")), "throw": lambda: throw(S("thrown")),
+             "break-outer": lambda: break_("O"), "continue-outer": lambda: continue_("O"), "none": lambda: N("empty")}
+    names = list(kinds)
+    for depth in (1, 2, 3):
+        for a, b in itertools.product(names, names):
+            if a == b or a == "none":
+                continue
+            inner = block(if_(binary("==", I("i"), num(1)), kinds[a]()), _p(S("c"), I("i")), kinds[b]())
+            st = inner
+            for d in range(depth):
+                st = block(try_(st, 0, 0, block(_p(S("f%d" % (d + 1))))))
+            loop = for_(var("i", num(0)), binary("<", I("i"), num(3)), update("++", False, I("i")), block(st, _p(S("tail"), I("i"))))
+            outer = labeled("O", for_(var("o", num(0)), binary("<", I("o"), num(2)), update("++", False, I("o")), block(_p(S("o"), I("o")), loop, _p(S("after inner")))))
+            f = function("f", [], [outer, _p(S("end")), return_(S("fell"))])
+            out.append(("nested/two-exits/%d/%s+%s" % (depth, a, b), program([f, _guard([_p(S("result"), call(I("f")))], "caught")])))
+    # C: a finally block whose own conditional exit is or is not taken while another completion is pending
+    pend = {"return": lambda: return_(S("A")), "throw": lambda: throw(S("T")), "break": lambda: break_(), "continue": lambda: continue_(), "normal": lambda: _p(S("body"))}
+    fex = {"break": lambda: break_(), "continue": lambda: continue_(), "return": lambda: return_(S("F")), "break-outer": lambda: break_("O")}
+    for (pn, pm), (fn_, fm) in itertools.product(pend.items(), fex.items()):
+        for outerfin in (False, True):
+            tr = try_(block(pm()), 0, 0, block(_p(S("fin")), if_(I("c"), fm())))
+            if outerfin:
+                tr = try_(block(tr), 0, 0, block(_p(S("outer fin"))))
+            loop = for_(var("k", num(0)), binary("<", I("k"), num(2)), update("++", False, I("k")), block(_p(S("k"), I("k")), tr, _p(S("tail"))))
+            f = function("f", params("c"), [labeled("O", dowhile(block(loop, _p(S("after loop"))), boolean(False))), _p(S("end")), return_(S("fell"))])
+            out.append(("nested/finally-cond/%s/%s/%s" % (pn, fn_, "of" if outerfin else "plain"),
+                        program([f, _guard([_p(S("r0"), call(I("f"), boolean(False)))], "caught0"), _guard([_p(S("r1"), call(I("f"), boolean(True)))], "caught1")])))
+    # D: generator suspended inside for-of (nest 1..2, with and without try/finally) closed from outside
+    for depth in (1, 2):
+        for fin in (False, True):
+            for how in ("return", "throw", "next-to-end"):
+                body = block(expr(yield_(I("x%d" % depth))))
+                if fin:
+                    body = block(try_(body, 0, 0, block(_p(S("gfin")))))
+                st = body
+                for k in range(depth, 0, -1):
+                    st = forof("const", "x%d" % k, call(I("G"), S("s%d" % k)), block(st) if k < depth else st)
+                g = generator("g", [], [st, _p(S("g end"))])
+                drive = [let("gi", call(I("g"))), _p(S("first"), member(call(member(I("gi"), "next")), "value"))]
+                if how == "return":
+                    drive.append(_p(S("returned"), member(call(member(I("gi"), "return"), num(7)), "value")))
+                elif how == "throw":
+                    drive.append(_p(S("threw"), member(call(member(I("gi"), "throw"), S("X")), "value")))
+                else:
+                    drive.append(while_(unary("!", member(call(member(I("gi"), "next")), "done")), block(_p(S("step")))))
+                drive.append(_p(S("after"), member(call(member(I("gi"), "next")), "done")))
+                out.append(("nested/gen-close/%d/%s/%s" % (depth, "fin" if fin else "plain", how), program([Gd(), g, _guard(drive, "caught"), _p(S("end"))])))
+    # E: loops carrying two labels
+    def mkloop(kind, body):
+        if kind == "for":
+            return for_(let("i", num(0)), binary("<", I("i"), num(3)), update("++", False, I("i")), body)
+        if kind == "while":
+            return while_(binary("<", update("++", False, I("w")), num(3)), body)
+        if kind == "dowhile":
+            return dowhile(body, binary("<", update("++", True, I("w")), num(3)))
+        if kind == "forof":
+            return forof("const", "i", call(I("G"), S("it")), body)
+        return forin("const", "i", obj(prop("a", num(1)), prop("b", num(2))), body)
+    for kind in ("for", "while", "dowhile", "forof", "forin"):
+        for en, mk in (("continue-A", lambda: continue_("A")), ("continue-B", lambda: continue_("B")), ("break-A", lambda: break_("A")), ("break-B", lambda: break_("B")), ("continue", lambda: continue_())):
+            for nest in (False, True):
+                core = block(expr(update("++", False, I("n"))), if_(binary("<", I("n"), num(9)), mk()), _p(S("not reached")))
+                if nest:
+                    core = block(for_(let("j", num(0)), binary("<", I("j"), num(2)), update("++", False, I("j")), core), _p(S("inner done")))
+                st = labeled("A", labeled("B", mkloop(kind, core)))
+                out.append(("nested/two-labels/%s/%s/%s" % (kind, en, "nest" if nest else "flat"),
+                            program([Gd(), let("n", num(0)), let("w", num(0)), st, _p(S("n"), I("n"))])))
+    return out
+
+
+def grid_iterproto(tier):
+    """the iterator protocol as seen by a user-defined iterator that logs every call: how often next() is called, when
+    return() is called, and what happens to errors of next()/return()/a non-object result, for array patterns, spread,
+    for-of exits and yield* (7.4, 8.6.2, 13.15.5, 14.7.5)"""
+    out = []
+    A, B, C, R = I("a"), I("b"), I("c"), I("r")
+    # mk(tag, n, mode): values 1..n, then done.  mode: "ok", "noreturn", "retnonobj", "retthrows", "nextthrows2", "nextnonobj2"
+    mk = function("mk", params("tag", "n", "mode"), [
+        let("i", num(0)),
+        let("it", obj(prop("next", fn([], [
+            expr(update("++", False, I("i"))), _p(I("tag"), S("next"), I("i")),
+            if_(logical("&&", binary("==", I("mode"), S("nextthrows2")), binary("==", I("i"), num(2))), throw(S("next failed"))),
+            if_(logical("&&", binary("==", I("mode"), S("nextnonobj2")), binary("==", I("i"), num(2))), return_(num(7))),
+            return_(obj(prop("value", binary("*", I("i"), num(10))), prop("done", binary(">", I("i"), I("n")))))])))),
+        if_(binary("!=", I("mode"), S("noreturn")), expr(assign(member(I("it"), "return"), fn(params("v"), [
+            _p(I("tag"), S("return")),
+            if_(binary("==", I("mode"), S("retthrows")), throw(S("return failed"))),
+            if_(binary("==", I("mode"), S("retnonobj")), return_(num(5))),
+            return_(obj())])))),
+        return_(obj(cprop(member(I("Symbol"), "iterator"), fn([], [_p(I("tag"), S("open")), return_(I("it"))]))))])
+    thrower = function("boom", [], [_p(S("boom")), throw(S("default failed"))])
+    src = lambda tag, n, mode: call(I("mk"), S(tag), num(n), S(mode))
+    pats = {
+        "[]": (lambda: arraypat(), []), "[a]": (lambda: arraypat(A), ["a"]), "[a,b]": (lambda: arraypat(A, B), ["a", "b"]),
+        "[a,,b]": (lambda: arraypat(A, hole(), B), ["a", "b"]), "[a,...r]": (lambda: arraypat(A, prest(R)), ["a", "r"]),
+        "[a,b,c]": (lambda: arraypat(A, B, C), ["a", "b", "c"]), "[a=boom()]": (lambda: arraypat(pelem(A, call(I("boom")))), ["a"]),
+        "[a,b=boom()]": (lambda: arraypat(A, pelem(B, call(I("boom")))), ["a", "b"]), "[[a],b]": (lambda: arraypat(arraypat(A), B), ["a", "b"]),
+    }
+    modes = ["ok", "noreturn", "retnonobj", "retthrows", "nextthrows2", "nextnonobj2"]
+    ctxs = ["let", "assign", "param"]
+    quick = tier == "quick"
+    for (pn, (mp, names)), n, mode, ctx in itertools.product(pats.items(), (0, 1, 2, 3), modes, ctxs):
+        if quick and not (ctx == "let" and mode in ("ok", "retthrows", "nextthrows2") or (ctx == "assign" and mode == "ok" and n == 2)):
+            continue
+        dump = [_p(*[x for nm in names for x in (S(nm), (member(I(nm), "length") if nm == "r" else I(nm)))])]
+        if ctx == "let":
+            core = [N("let", decls=[decl(mp(), src("s", n, mode))])] + dump
+        elif ctx == "assign":
+            core = [N("let", decls=[decl(x) for x in ["a", "b", "c", "r"]]), expr(assign(mp(), src("s", n, mode)))] + dump
+        else:
+            out.append(("iterproto/pattern/%s/%s/%d/%s" % (ctx, pn, n, mode),
+                        program([mk, thrower, function("f", [param(mp())], dump), _guard([expr(call(I("f"), src("s", n, mode)))], "caught"), _p(S("end"))])))
+            continue
+        out.append(("iterproto/pattern/%s/%s/%d/%s" % (ctx, pn, n, mode), program([mk, thrower, _guard(core, "caught"), _p(S("end"))])))
+    # spread and for-of exits and yield*
+    for n, mode in itertools.product((0, 2), modes):
+        if quick and mode not in ("ok", "retthrows", "nextthrows2"):
+            continue
+        t = function("t", [N("param", target=prest(I("xs")))] if False else params("x", "y", "z"), [_p(S("args"), I("x"), I("y"), I("z"))])
+        out.append(("iterproto/spread-call/%d/%s" % (n, mode), program([mk, t, _guard([expr(call(I("t"), num(0), spread(src("s", n, mode))))], "caught"), _p(S("end"))])))
+        out.append(("iterproto/spread-array/%d/%s" % (n, mode), program([mk, _guard([_p(member(array(num(0), spread(src("s", n, mode)), num(9)), "length"))], "caught"), _p(S("end"))])))
+        for ex, mkex in (("none", lambda: N("empty")), ("break", lambda: break_()), ("continue", lambda: continue_()), ("return", lambda: return_(S("ret"))), ("throw", lambda: throw(S("thrown"))),
+                         ("break-outer", lambda: break_("O")), ("continue-outer", lambda: continue_("O"))):
+            inner = forof("const", "v", src("in", n, mode), block(_p(S("v"), I("v")), mkex(), _p(S("tail"))))
+            outer = labeled("O", forof("const", "w", src("out", 1, "ok"), block(_p(S("w"), I("w")), inner, _p(S("after inner")))))
+            f = function("f", [], [outer, _p(S("after outer")), return_(S("fell"))])
+            out.append(("iterproto/forof/%s/%d/%s" % (ex, n, mode), program([mk, f, _guard([_p(S("result"), call(I("f")))], "caught"), _p(S("end"))])))
+        for how in ("next", "return", "throw"):
+            g = generator("g", [], [let("r", yield_(src("d", n, mode), True)), _p(S("yield* value"), I("r")), return_(S("g done"))])
+            drive = [let("gi", call(I("g"))), let("x", call(member(I("gi"), "next"))), _p(S("first"), member(I("x"), "value"), member(I("x"), "done"))]
+            if how == "next":
+                drive += [expr(assign(I("x"), call(member(I("gi"), "next"), S("sent")))), _p(S("second"), member(I("x"), "value"), member(I("x"), "done"))]
+            elif how == "return":
+                drive += [expr(assign(I("x"), call(member(I("gi"), "return"), S("R")))), _p(S("returned"), member(I("x"), "value"), member(I("x"), "done"))]
+            else:
+                drive += [expr(assign(I("x"), call(member(I("gi"), "throw"), S("T")))), _p(S("threw"), member(I("x"), "value"), member(I("x"), "done"))]
+            drive += [expr(assign(I("x"), call(member(I("gi"), "next")))), _p(S("last"), member(I("x"), "value"), member(I("x"), "done"))]
+            out.append(("iterproto/yieldstar/%s/%d/%s" % (how, n, mode), program([mk, g, _guard(drive, "caught"), _p(S("end"))])))
+    # an abrupt completion inside an inner iteration must not disturb the enclosing loop's iterator
+    inners = {
+        "pattern-next-throws": lambda: N("let", decls=[decl(arraypat(A, B), src("s", 3, "nextthrows2"))]),
+        "pattern-next-nonobj": lambda: N("let", decls=[decl(arraypat(A, B), src("s", 3, "nextnonobj2"))]),
+        "pattern-default-throws": lambda: N("let", decls=[decl(arraypat(A, pelem(B, call(I("boom")))), src("s", 1, "ok"))]),
+        "forof-next-throws": lambda: forof("const", "v", src("s", 3, "nextthrows2"), block(_p(S("v"), I("v")))),
+        "forof-body-throws": lambda: forof("const", "v", src("s", 3, "ok"), block(throw(S("body")))),
+        "forin-body-throws": lambda: forin("const", "k", obj(prop("p", num(1))), block(throw(S("body")))),
+        "spread-next-throws": lambda: expr(array(spread(src("s", 3, "nextthrows2")))),
+    }
+    for (inn, mi), after in itertools.product(inners.items(), ("break", "run-out")):
+        body = [_p(S("w"), I("w")), try_(block(mi()), "e", block(_p(S("caught"), I("e")))), _p(S("still in loop"))]
+        if after == "break":
+            body.append(break_())
+        out.append(("iterproto/inner-abrupt/%s/%s" % (inn, after),
+                    program([mk, thrower, forof("const", "w", src("out", 2, "ok"), block(*body)), _p(S("end"))])))
+    return out
+
+
+GRID_FAMILIES = {"iterproto": grid_iterproto, "nested": grid_nested_exits, "exits": grid_exits, "genexits": grid_generator_exits, "bindings": grid_bindings, "operators": grid_operators,
                  "destructuring": grid_destructuring, "completion": grid_completion, "classes": grid_classes, "misc": grid_misc, "finally-inner": grid_finally_inner}
 
 
